@@ -54,6 +54,12 @@ def create (s : S) (j : Bool) : S × Nat × Nat :=
 def createFailed (s : S) : S × Nat :=
   ({ s with handles := s.handles ++ [{ refs := 0, joinable := false, live := false }] }, s.handles.length)
 
+/-- a library thread whose own handle could not be put into its slot: for the library it is an unknown thread from now on
+    (`current` makes a fresh handle for it, `exit` is refused); the reference it holds to its handle goes when its
+    function returns (that is `drop`) -/
+def unstored (s : S) (t : Nat) : S :=
+  { s with threadHandle := s.threadHandle.filter (fun c => c.1 ≠ t), ours := s.ours.filter (fun x => x ≠ t) }
+
 def spawn (s : S) : S × Nat := ({ s with nThreads := s.nThreads + 1 }, s.nThreads)
 
 def ref (s : S) (h : Nat) : S := s.modH h fun x => { x with refs := x.refs + 1 }
